@@ -4,7 +4,9 @@
 \* the ways a tool run can fail to report success (actions of the fault-injecting stand-in)
 VerifyFaults == {"ExitError", "KilledBySignal", "EmptyOutput", "TruncatedOutput", "Garbled",
                  "OkInsideText1", "OkInsideText2", "OkInsideText3", "OkInsideText4", "OkInsideText5",
-                 "OkInsideText6"}
+                 "OkInsideText6",
+                 \* the letters OK on a line of their own between bytes that are not valid in any text encoding
+                 "UndecodableAroundOk1", "UndecodableAroundOk2"}
 OutputFaults == {"ExitError", "KilledBySignal", "NoOutputFile", "EmptyOutput", "Garbled"}
 \* a run reports success iff it was not faulted and the check itself succeeded
 Reports(ok, fault) == ok /\ fault = "none"
